@@ -156,7 +156,7 @@ func describeKey(k string) (Result, *scaleObs, map[string]any) {
 
 func checkC13(c C13Case) *Violation {
 	k := c.Key
-	if c.Layer == "list" {
+	if c.Layer == "list" || c.Layer == "walk" {
 		k = "C"
 	}
 	key := theory.ParseKey(k)
@@ -197,6 +197,43 @@ func checkC13(c C13Case) *Violation {
 		}
 		if v := checkKeyWritten(k, key, mustAccept, mustReject); v != nil {
 			return v
+		}
+	case "walk":
+		// one piece that visits the keys in the order given (c.Key holds them, blank-separated): every visit states its
+		// own signature where it begins - also right after an enharmonic twin or a relative key
+		keys := strings.Fields(c.Key)
+		var doc strings.Builder
+		for _, kk := range keys {
+			doc.WriteString(fmt.Sprintf("- values: [\"1\"]\n  chord: {degree: \"1\", name: \"\"}\n  key: %s\n", yq(kk)))
+		}
+		wr := Run{Argv: []string{"write"}, Stdin: doc.String()}.Exec()
+		if v := cleanOutcome(wr); v != nil {
+			return v
+		}
+		if wr.Exit != 0 {
+			return vio("listed-key-not-written", "`crd write` refuses a piece that walks through %v: %s", keys, firstLines(wr.Stderr, 2))
+		}
+		_, song, err := decode(wr.Stdout)
+		if err != nil || len(song.Tracks) == 0 {
+			return vio("not-smf", "walk through %v: %v", keys, err)
+		}
+		var got []string
+		for _, e := range song.Tracks[0] {
+			if e.IsMeta(0x59) && len(e.Data) == 2 {
+				got = append(got, fmt.Sprintf("%d:sf=%d,mi=%d", e.Tick/960, int8(e.Data[0]), e.Data[1]))
+			}
+		}
+		var want []string
+		for i, kk := range keys {
+			tk := theory.ParseKey(kk)
+			mi := 0
+			if tk.Minor {
+				mi = 1
+			}
+			want = append(want, fmt.Sprintf("%d:sf=%d,mi=%d", i, tk.Sig(), mi))
+		}
+		if strings.Join(got, " ") != strings.Join(want, " ") {
+			return vio("written-signature", "a piece walking through %v states the signatures (beat:sf,mi)\n%v\nthe keys have\n%v", keys, got, want)
 		}
 	case "lib":
 		pk, err := op.ParseKey(k)
@@ -292,6 +329,19 @@ func TestC13(t *testing.T) {
 				r.Check(t, checkC13(c), "c13", c)
 			}
 			i++
+		}
+	}
+	walks := []string{
+		"C G D A E B Cb F# Gb C# Db Ab Eb Bb F C",                 // the major circle, enharmonic twins side by side
+		"Am Em Bm F#m C#m G#m D#m Ebm Bbm Fm Cm Gm Dm Am",         // the minor circle
+		"C Am G Em D Bm A F#m E C#m B G#m F# D#m Gb Ebm Db Bbm Ab Fm Eb Cm Bb Gm F Dm C# Cb", // relatives side by side
+		"Db C# Db F# Gb F# Ebm D#m Ebm Cb B Cb",                 // twins back and forth
+	}
+	for wi, w := range walks {
+		if myShare(wi + 3) {
+			c := C13Case{Key: w, Layer: "walk"}
+			r.CaseBC(true, "layer:walk")
+			r.Check(t, checkC13(c), "c13", c)
 		}
 	}
 	if shardIndex() == 0 {
